@@ -15,6 +15,9 @@ open CuqiVerif CuqiVerif.Proto CuqiVerif.C16
   lbfgsb warnflag hasgrad                   -> success approx_grad msgcode
 -/
 
+def parseBool (s : String) : Option Bool :=
+  if s = "1" then some true else if s = "0" then some false else none
+
 def eps64 : Rat := mkRat 1 4503599627370496   -- numpy.finfo(float).eps = 2⁻⁵²
 
 def toVec (n : Nat) (l : List Rat) : Option (Vector Rat n) :=
@@ -146,71 +149,102 @@ def runLm (Ml Ql : List (List Rat)) (b x0 : List Rat) (nuInit nu0 gradtol : Rat)
     s!"{st.i}|{fmtV st.x}|{";".intercalate (states.map (fun s => fmtV s.x))}|{fmtRat st.nu}"
   | _, _, _, _ => "err-dim"
 
-def parseBool (s : String) : Option Bool :=
-  if s = "1" then some true else if s = "0" then some false else none
+def orBad (o : Option String) : String := o.getD "bad-op"
+
+def stepCgls (form : String) (args : List String) : Option String := do
+  let (op, rest) ← parseOper form args
+  match rest with
+  | [b, x0, shift, tol, maxit] =>
+    let b ← parseVec b
+    let x0 ← parseVec x0
+    let shift ← parseRat shift
+    let tol ← parseRat tol
+    let maxit ← maxit.toNat?
+    match op with
+    | some op => some (runCgls op b x0 shift tol maxit)
+    | none => some "err-dim"
+  | _ => none
+
+def stepPcgls (form : String) (args : List String) : Option String := do
+  let (op, rest) ← parseOper form args
+  match rest with
+  | [p, b, x0, shift, tol, maxit] =>
+    let P ← parseMat p
+    let b ← parseVec b
+    let x0 ← parseVec x0
+    let shift ← parseRat shift
+    let tol ← parseRat tol
+    let maxit ← maxit.toNat?
+    match op with
+    | some op => some (runPcgls op P b x0 shift tol maxit)
+    | none => some "err-dim"
+  | _ => none
+
+def stepFista (form : String) (args : List String) : Option String := do
+  let (op, rest) ← parseOper form args
+  match rest with
+  | [b, x0, ptok, t, abstol, maxit, ad] =>
+    let b ← parseVec b
+    let x0 ← parseVec x0
+    let t ← parseRat t
+    let abstol ← parseRat abstol
+    let maxit ← maxit.toNat?
+    let ad ← parseBool ad
+    match op with
+    | some op => some (runFista op b x0 ptok t abstol maxit ad)
+    | none => some "err-dim"
+  | _ => none
+
+def stepLm (args : List String) : Option String :=
+  match args with
+  | [m, q, b, x0, nuInit, nu0, gradtol, maxit] => do
+    let M ← parseMat m
+    let Q ← parseMat q
+    let b ← parseVec b
+    let x0 ← parseVec x0
+    let nuInit ← parseRat nuInit
+    let nu0 ← parseRat nu0
+    let gradtol ← parseRat gradtol
+    let maxit ← maxit.toNat?
+    some (runLm M Q b x0 nuInit nu0 gradtol maxit)
+  | _ => none
+
+def stepProx (args : List String) : Option String :=
+  match args with
+  | ["l1", g, x] => do
+    let g ← parseRat g
+    let x ← parseVec x
+    let v ← toVec x.length x
+    some (fmtV (proximalL1 v g))
+  | ["nonneg", x] => do
+    let x ← parseVec x
+    let v ← toVec x.length x
+    some (fmtV (projectNonnegative v))
+  | ["box", x, l, u] => do
+    let x ← parseVec x
+    let v ← toVec x.length x
+    let f ← parseProx x.length s!"box:{l}:{u}"
+    match f with
+    | some f => some (fmtV (f v 0))
+    | none => some "err-dim"
+  | _ => none
+
+def stepLbfgsb (args : List String) : Option String :=
+  match args with
+  | [wf, hg] => do
+    let wf ← wf.toInt?
+    let hg ← parseBool hg
+    let (succ, msg) := lbfgsbStatus wf "TASK"
+    some s!"{succ} {lbfgsbApproxGrad hg} {msg}"
+  | _ => none
 
 def step : List String → String
-  | "cgls" :: form :: args =>
-    match parseOper form args with
-    | some (op, [b, x0, shift, tol, maxit]) =>
-      match parseVec b, parseVec x0, parseRat shift, parseRat tol, maxit.toNat? with
-      | some b, some x0, some shift, some tol, some maxit =>
-        match op with
-        | some op => runCgls op b x0 shift tol maxit
-        | none => "err-dim"
-      | _, _, _, _, _ => "bad-op"
-    | _ => "bad-op"
-  | "pcgls" :: form :: args =>
-    match parseOper form args with
-    | some (op, [p, b, x0, shift, tol, maxit]) =>
-      match parseMat p, parseVec b, parseVec x0, parseRat shift, parseRat tol, maxit.toNat? with
-      | some P, some b, some x0, some shift, some tol, some maxit =>
-        match op with
-        | some op => runPcgls op P b x0 shift tol maxit
-        | none => "err-dim"
-      | _, _, _, _, _, _ => "bad-op"
-    | _ => "bad-op"
-  | "fista" :: form :: args =>
-    match parseOper form args with
-    | some (op, [b, x0, ptok, t, abstol, maxit, ad]) =>
-      match parseVec b, parseVec x0, parseRat t, parseRat abstol, maxit.toNat?, parseBool ad with
-      | some b, some x0, some t, some abstol, some maxit, some ad =>
-        match op with
-        | some op => runFista op b x0 ptok t abstol maxit ad
-        | none => "err-dim"
-      | _, _, _, _, _, _ => "bad-op"
-    | _ => "bad-op"
-  | ["prox", "l1", g, x] =>
-    match parseRat g, parseVec x with
-    | some g, some x => match toVec x.length x with
-      | some v => fmtV (proximalL1 v g)
-      | none => "err-dim"
-    | _, _ => "bad-op"
-  | ["prox", "nonneg", x] =>
-    match parseVec x with
-    | some x => match toVec x.length x with
-      | some v => fmtV (projectNonnegative v)
-      | none => "err-dim"
-    | _ => "bad-op"
-  | ["prox", "box", x, l, u] =>
-    match parseVec x with
-    | some x =>
-      match parseProx x.length s!"box:{l}:{u}", toVec x.length x with
-      | some (some f), some v => fmtV (f v 0)
-      | some none, _ => "err-dim"
-      | _, _ => "bad-op"
-    | none => "bad-op"
-  | ["lm", m, q, b, x0, nuInit, nu0, gradtol, maxit] =>
-    match parseMat m, parseMat q, parseVec b, parseVec x0, parseRat nuInit, parseRat nu0, parseRat gradtol, maxit.toNat? with
-    | some M, some Q, some b, some x0, some nuInit, some nu0, some gradtol, some maxit =>
-      runLm M Q b x0 nuInit nu0 gradtol maxit
-    | _, _, _, _, _, _, _, _ => "bad-op"
-  | ["lbfgsb", wf, hg] =>
-    match wf.toInt?, parseBool hg with
-    | some wf, some hg =>
-      let (succ, msg) := lbfgsbStatus wf "TASK"
-      s!"{succ} {lbfgsbApproxGrad hg} {msg}"
-    | _, _ => "bad-op"
+  | "cgls" :: form :: args => orBad (stepCgls form args)
+  | "pcgls" :: form :: args => orBad (stepPcgls form args)
+  | "fista" :: form :: args => orBad (stepFista form args)
+  | "prox" :: args => orBad (stepProx args)
+  | "lm" :: args => orBad (stepLm args)
+  | "lbfgsb" :: args => orBad (stepLbfgsb args)
   | _ => "bad-op"
 
 def main : IO Unit := runDriver step
